@@ -521,6 +521,10 @@ def _shortest_valid_path(
                 path.extend(temp_path)
                 break
 
+    if not path_exists:
+        # backtrack: another branch may reach this node from a different predecessor
+        visited.remove(cur_node)
+
     return (path_exists, path)
 
 
